@@ -858,6 +858,22 @@ func r07e(c *core.Ctx) {
 				}
 				guarded := false
 				for _, cnd := range core.CondsAt(ia.Block()) {
+					// the index expression itself is known non-negative: !(i-1 < 0), i-1 >= 0
+					if cm, ok := core.CmpOf(cnd.Cond); ok && cm.Op == "<" && cm.XV == ssa.Value(bo) {
+						if k, isC := core.ConstInt(cm.YV); isC && k <= 0 && cnd.Val == cm.Neg {
+							guarded = true
+						}
+					}
+					// i >= 1 in any spelling
+					if cm, ok := core.CmpOf(cnd.Cond); ok && cm.Op == "<" {
+						truth := cnd.Val != cm.Neg
+						if k, isC := core.ConstInt(cm.XV); isC && cm.YV == bo.X && truth && k >= 0 { // k < i
+							guarded = true
+						}
+						if k, isC := core.ConstInt(cm.YV); isC && cm.XV == bo.X && !truth && k >= 1 { // !(i < k)
+							guarded = true
+						}
+					}
 					if b, ok := cnd.Cond.(*ssa.BinOp); ok && b.X == bo.X {
 						if k, isC := core.ConstInt(b.Y); isC && k == 0 && ((b.Op == token.EQL && !cnd.Val) || (b.Op == token.NEQ && cnd.Val) || (b.Op == token.GTR && cnd.Val) || (b.Op == token.LEQ && !cnd.Val)) {
 							guarded = true
